@@ -299,6 +299,9 @@ func checkC11(r *evid.Run) {
 				rq.CancelAt = &o
 				rq.Yield = 1
 				rq.Procs = procsSet[rng.Intn(len(procsSet))]
+				if (off+n)%3 == 0 {
+					rq.CtxKind = "deadline" // the context ends as an expired deadline: that error, not Canceled
+				}
 				if off%2 == 0 {
 					rq.Delays = rng.Int63n(1<<30) + 1
 				}
@@ -383,6 +386,9 @@ func checkC11(r *evid.Run) {
 				o := -1
 				rq.CancelAt = &o
 				c = "early"
+				if rep%2 == 0 {
+					rq.CtxKind = "deadline"
+				}
 			}
 			rq.Procs = procsSet[rep%4]
 			rq.Delays = int64(rep)
